@@ -55,6 +55,13 @@ fn to_ev(e: &E) -> Ev<InnerErr> {
         E::X => Ev::Err(InnerErr),
     }
 }
+fn to_bytes(e: &E) -> Vec<u8> {
+    match e {
+        E::D(d) => d.clone(),
+        E::Fr(f, n, b) => frame(*f, &vec![*b; *n]),
+        _ => vec![],
+    }
+}
 fn ev_coq(e: &E) -> String {
     match e {
         E::P => "EvPending".into(),
@@ -112,6 +119,8 @@ enum Item {
     Trailers(HeaderMap),
     Err(u32),
     Cap,
+    /// a poll that returned Pending (recorded only by the poll-by-poll consumer)
+    Pending,
 }
 impl Item {
     fn tr(&self) -> Tr {
@@ -122,6 +131,7 @@ impl Item {
             Item::Trailers(t) => Tr::L(vec![Tr::n(2u8), hm_tr(t)]),
             Item::Err(c) => Tr::L(vec![Tr::n(3u8), Tr::n(*c)]),
             Item::Cap => Tr::L(vec![Tr::n(3u8), Tr::n(98u8)]),
+            Item::Pending => Tr::L(vec![Tr::n(4u8)]),
         }
     }
 }
@@ -177,12 +187,56 @@ where
     items
 }
 
+/// poll a body exactly `n` times with a no-op waker and record EVERY result (Pending and errors
+/// included); only the end of the body stops the consumer
+fn polls<B>(body: B, n: usize) -> Vec<Item>
+where
+    B: HttpBody<Data = Bytes>,
+    B::Error: std::fmt::Display,
+{
+    let w = vcommon::body::noop_waker();
+    let mut cx = Context::from_waker(&w);
+    let mut body = Box::pin(body);
+    let mut items = vec![];
+    for _ in 0..n {
+        match body.as_mut().poll_frame(&mut cx) {
+            Poll::Pending => items.push(Item::Pending),
+            Poll::Ready(None) => {
+                items.push(Item::None);
+                break;
+            }
+            Poll::Ready(Some(Ok(f))) => {
+                if f.is_data() {
+                    items.push(Item::Data(f.into_data().ok().unwrap().to_vec()));
+                } else {
+                    items.push(Item::Trailers(f.into_trailers().ok().unwrap()));
+                }
+            }
+            Poll::Ready(Some(Err(e))) => items.push(classify(&e.to_string())),
+        }
+    }
+    items
+}
+
 // ------------------------------------------------------------------ the recording inner service
 struct Seen {
     method: Method,
     version: Version,
     headers: HeaderMap,
+    uri: String,
+    /// size_hint() of the request body, read before the first poll
+    hint: (u64, Option<u64>),
     body: Vec<Item>,
+}
+/// how the inner service reads the request body it is given
+#[derive(Clone, Copy, PartialEq)]
+enum Reader {
+    /// poll until None / the first error
+    Drain,
+    /// the way hyper reads a body (stop when is_end_stream() is true)
+    Hyper,
+    /// exactly n polls, every result recorded, errors are not final
+    Polls(usize),
 }
 /// the scripted response body with a scripted `is_end_stream` / `size_hint`
 struct EosBody {
@@ -220,8 +274,7 @@ impl HttpBody for EosBody {
 struct Rec {
     resp: Option<(u16, HeaderMap, Vec<E>, u8, bool)>,
     seen: Arc<Mutex<Option<Seen>>>,
-    /// read the request body the way hyper reads a body (stop when is_end_stream() is true)
-    hyper_req: bool,
+    reader: Reader,
 }
 impl Service<Request<tonic::body::Body>> for Rec {
     type Response = Response<EosBody>;
@@ -232,17 +285,26 @@ impl Service<Request<tonic::body::Body>> for Rec {
     }
     fn call(&mut self, req: Request<tonic::body::Body>) -> Self::Future {
         let (parts, body) = req.into_parts();
-        let items = if self.hyper_req {
-            let (mut v, by_eos) = drain_hyper(body);
-            if by_eos {
-                v.push(Item::Cap); // marker: stopped by is_end_stream (never produced otherwise here)
+        let h = body.size_hint();
+        let items = match self.reader {
+            Reader::Hyper => {
+                let (mut v, by_eos) = drain_hyper(body);
+                if by_eos {
+                    v.push(Item::Cap); // marker: stopped by is_end_stream (never produced otherwise here)
+                }
+                v
             }
-            v
-        } else {
-            drain(body, 100_000)
+            Reader::Drain => drain(body, 100_000),
+            Reader::Polls(n) => polls(body, n),
         };
-        *self.seen.lock().unwrap() =
-            Some(Seen { method: parts.method, version: parts.version, headers: parts.headers, body: items });
+        *self.seen.lock().unwrap() = Some(Seen {
+            method: parts.method,
+            version: parts.version,
+            headers: parts.headers,
+            uri: parts.uri.to_string(),
+            hint: (h.lower(), h.upper()),
+            body: items,
+        });
         let (status, headers, evs, mode, hint) = self.resp.take().expect("called once");
         let (sb, _) = ScriptBody::new(evs.iter().map(to_ev).collect());
         let mut r = Response::new(EosBody { inner: sb, mode, hint });
@@ -320,7 +382,7 @@ struct Done {
 }
 fn run_call(c: &Call) -> Done {
     let seen = Arc::new(Mutex::new(None));
-    let inner = Rec { resp: Some((c.rstatus, pairs_to_map(&c.rheaders), c.revs.clone(), 0, false)), seen: seen.clone(), hyper_req: false };
+    let inner = Rec { resp: Some((c.rstatus, pairs_to_map(&c.rheaders), c.revs.clone(), 0, false)), seen: seen.clone(), reader: Reader::Drain };
     let mut svc = GrpcWebLayer::new().layer(inner);
     let (qb, _) = ScriptBody::<InnerErr>::new(c.qevs.iter().map(to_ev).collect());
     let mut req = Request::new(qb);
@@ -340,7 +402,7 @@ fn run_call(c: &Call) -> Done {
 /// Returns the size_hint seen first, the frames taken, and whether is_end_stream stopped it.
 fn run_response_hyper(accept: Option<&str>, revs: &[E], mode: u8, hint: bool) -> ((u64, Option<u64>), Vec<Item>, bool) {
     let seen = Arc::new(Mutex::new(None));
-    let inner = Rec { resp: Some((200, HeaderMap::new(), revs.to_vec(), mode, hint)), seen, hyper_req: false };
+    let inner = Rec { resp: Some((200, HeaderMap::new(), revs.to_vec(), mode, hint)), seen, reader: Reader::Drain };
     let mut svc = GrpcWebLayer::new().layer(inner);
     let (qb, _) = ScriptBody::<InnerErr>::new(vec![]);
     let mut req = Request::new(qb);
@@ -432,22 +494,39 @@ where
     (items, false)
 }
 
-/// kind eos.request*: a base64 text request body whose inner body reports is_end_stream once it
-/// is exhausted, read by the inner service the way hyper reads a body
+/// The size hint a body gave before its first poll against the bytes it then delivered:
+/// lower <= delivered <= upper (F-C16a).  Model-independent.
+fn hint_verdict(what: &str, hint: (u64, Option<u64>), delivered: usize) -> Option<String> {
+    if hint.0 > delivered as u64 || matches!(hint.1, Some(u) if u < delivered as u64) {
+        Some(format!(
+            "{} body announced size_hint (lower {}, upper {:?}) and delivered {} bytes: a consumer that derives a Content-Length from the hint cuts or pads the body",
+            what, hint.0, hint.1, delivered
+        ))
+    } else {
+        None
+    }
+}
+
+/// kind eos.request*: a request body (base64 text or binary) whose inner body reports
+/// is_end_stream once it is exhausted (`mode` 1) and, with `hint`, the exact number of bytes to
+/// come, read by the inner service the way hyper reads a body
 fn request_hyper_case(kind: &str, r: &mut Rng, payload: Option<&[u8]>, wire: &[u8], cuts: &[usize], mode: u8,
                       pend: &mut Vec<Pending>, out: &mut Out) {
     let qevs = sprinkle(r, chunks_at(wire, cuts));
-    request_hyper_evs(kind, payload, qevs, mode, pend, out);
+    request_hyper_evs(kind, payload, qevs, mode, true, false, pend, out);
 }
-fn request_hyper_evs(kind: &str, payload: Option<&[u8]>, qevs: Vec<E>, mode: u8, pend: &mut Vec<Pending>, out: &mut Out) {
+fn request_hyper_evs(kind: &str, payload: Option<&[u8]>, qevs: Vec<E>, mode: u8, text: bool, hint: bool, pend: &mut Vec<Pending>, out: &mut Out) {
     let seen = Arc::new(Mutex::new(None));
-    let inner = Rec { resp: Some((200, HeaderMap::new(), vec![], 0, false)), seen: seen.clone(), hyper_req: true };
+    let inner = Rec { resp: Some((200, HeaderMap::new(), vec![], 0, false)), seen: seen.clone(), reader: Reader::Hyper };
     let mut svc = GrpcWebLayer::new().layer(inner);
     let (sb, _) = ScriptBody::<InnerErr>::new(qevs.iter().map(to_ev).collect());
-    let mut req = Request::new(EosBody { inner: sb, mode, hint: false });
+    let mut req = Request::new(EosBody { inner: sb, mode, hint });
     *req.method_mut() = Method::POST;
     *req.uri_mut() = "http://example.test/pkg.Svc/Method".parse().unwrap();
-    req.headers_mut().insert("content-type", HeaderValue::from_static("application/grpc-web-text"));
+    req.headers_mut().insert(
+        "content-type",
+        HeaderValue::from_static(if text { "application/grpc-web-text" } else { "application/grpc-web+proto" }),
+    );
     let _ = spin(svc.call(req), 1000).expect("response future ready");
     let s = seen.lock().unwrap().take().expect("inner service called");
     let mut items = s.body;
@@ -468,15 +547,115 @@ fn request_hyper_evs(kind: &str, payload: Option<&[u8]>, qevs: Vec<E>, mode: u8,
             oracle = Some(format!("the request body did not reach its end: {:?}", items.last()));
         }
     }
+    if oracle.is_none() {
+        oracle = hint_verdict("the request", s.hint, data_of(&items).len());
+    }
     out.hist("eos.request.stopped_by_is_end_stream", by_eos);
+    out.hist("eos.request.size_hint", if s.hint.1.is_some() { if s.hint.1 == Some(0) { "exact 0" } else { "upper bound" } } else { "none" });
     pend.push(Pending {
         case: Case {
             kind: kind.to_string(),
-            input: json!({"hyper_request": {"qevs": evs_json(&qevs), "eos_mode": mode, "payload": payload.map(hex)}}),
-            model: format!("obs_request_hyper {} {}", mode, evs_coq(&qevs)),
-            impl_obs: Tr::L(vec![items_tr(&items), Tr::bool(by_eos)]),
+            input: json!({"hyper_request": {"qevs": evs_json(&qevs), "eos_mode": mode, "payload": payload.map(hex), "text": text, "hint": hint}}),
+            model: format!("obs_request_hyper {} {} {} {}", if text { "Base64" } else { "NoEnc" }, mode, coq_bool(hint), evs_coq(&qevs)),
+            impl_obs: Tr::L(vec![Tr::L(vec![Tr::n(s.hint.0), Tr::opt(s.hint.1.map(Tr::n))]), items_tr(&items), Tr::bool(by_eos)]),
             oracle,
             nontrivial: !qevs.is_empty(),
+        },
+        py: None,
+    });
+}
+
+/// kind polls.*: every poll result of the translated request / response body, errors are not
+/// final (tie only: the property does not speak about a body that is polled on after it failed)
+fn polls_request_case(kind: &str, qevs: Vec<E>, text: bool, n: usize, pend: &mut Vec<Pending>, _out: &mut Out) {
+    let seen = Arc::new(Mutex::new(None));
+    let inner = Rec { resp: Some((200, HeaderMap::new(), vec![], 0, false)), seen: seen.clone(), reader: Reader::Polls(n) };
+    let mut svc = GrpcWebLayer::new().layer(inner);
+    let (sb, _) = ScriptBody::<InnerErr>::new(qevs.iter().map(to_ev).collect());
+    let mut req = Request::new(sb);
+    *req.method_mut() = Method::POST;
+    *req.uri_mut() = "http://example.test/pkg.Svc/Method".parse().unwrap();
+    req.headers_mut().insert(
+        "content-type",
+        HeaderValue::from_static(if text { "application/grpc-web-text+proto" } else { "application/grpc-web" }),
+    );
+    let _ = spin(svc.call(req), 1000).expect("response future ready");
+    let s = seen.lock().unwrap().take().expect("inner service called");
+    pend.push(Pending {
+        case: Case {
+            kind: kind.to_string(),
+            input: json!({"polls_request": {"qevs": evs_json(&qevs), "text": text, "n": n}}),
+            model: format!("obs_polls_request {} {} {}", if text { "Base64" } else { "NoEnc" }, n, evs_coq(&qevs)),
+            impl_obs: items_tr(&s.body),
+            oracle: None,
+            nontrivial: !qevs.is_empty(),
+        },
+        py: None,
+    });
+}
+fn polls_response_case(kind: &str, revs: Vec<E>, text: bool, n: usize, pend: &mut Vec<Pending>, _out: &mut Out) {
+    let seen = Arc::new(Mutex::new(None));
+    let inner = Rec { resp: Some((200, HeaderMap::new(), revs.clone(), 0, false)), seen, reader: Reader::Drain };
+    let mut svc = GrpcWebLayer::new().layer(inner);
+    let (qb, _) = ScriptBody::<InnerErr>::new(vec![]);
+    let mut req = Request::new(qb);
+    *req.method_mut() = Method::POST;
+    *req.uri_mut() = "http://example.test/pkg.Svc/Method".parse().unwrap();
+    req.headers_mut().insert("content-type", HeaderValue::from_static("application/grpc-web"));
+    if text {
+        req.headers_mut().insert("accept", HeaderValue::from_static("application/grpc-web-text"));
+    }
+    let resp = spin(svc.call(req), 1000).expect("response future ready").unwrap();
+    let items = polls(resp.into_body(), n);
+    pend.push(Pending {
+        case: Case {
+            kind: kind.to_string(),
+            input: json!({"polls_response": {"revs": evs_json(&revs), "text": text, "n": n}}),
+            model: format!("obs_polls_response {} {} {}", if text { "Base64" } else { "NoEnc" }, n, evs_coq(&revs)),
+            impl_obs: items_tr(&items),
+            oracle: None,
+            nontrivial: !revs.is_empty(),
+        },
+        py: None,
+    });
+}
+
+/// `GrpcWebCall::default()` (Direction::Empty) over an inner body that still has a frame and an
+/// exact hint: at its end, nothing to come, exact 0
+#[derive(Default)]
+struct DefBody(bool);
+impl HttpBody for DefBody {
+    type Data = Bytes;
+    type Error = InnerErr;
+    fn poll_frame(mut self: std::pin::Pin<&mut Self>, _: &mut Context<'_>) -> Poll<Option<Result<http_body::Frame<Bytes>, InnerErr>>> {
+        if self.0 {
+            Poll::Ready(None)
+        } else {
+            self.0 = true;
+            Poll::Ready(Some(Ok(http_body::Frame::data(Bytes::from_static(b"late")))))
+        }
+    }
+    fn size_hint(&self) -> http_body::SizeHint {
+        http_body::SizeHint::with_exact(if self.0 { 0 } else { 4 })
+    }
+}
+fn default_call_case(pend: &mut Vec<Pending>) {
+    let call = tonic_web::GrpcWebCall::<DefBody>::default();
+    let eos = HttpBody::is_end_stream(&call);
+    let h = HttpBody::size_hint(&call);
+    let items = polls(call, 3);
+    let mut oracle = hint_verdict("the empty", (h.lower(), h.upper()), data_of(&items).len());
+    if eos && data_of(&items).len() > 0 {
+        oracle = Some("is_end_stream() was true and a frame followed".into());
+    }
+    pend.push(Pending {
+        case: Case {
+            kind: "call.default_empty".to_string(),
+            input: json!({"default_call": true}),
+            model: "obs_default_call 3 [EvData [108; 97; 116; 101]]".to_string(),
+            impl_obs: Tr::L(vec![Tr::bool(eos), Tr::L(vec![Tr::n(h.lower()), Tr::opt(h.upper().map(Tr::n))]), items_tr(&items)]),
+            oracle,
+            nontrivial: true,
         },
         py: None,
     });
@@ -503,7 +682,11 @@ fn hyper_case_revs(kind: &str, accept: Option<&str>, revs: &[E], mode: u8, hint:
     if judged && !(by_eos || items.last() == Some(&Item::None)) {
         oracle = Some(format!("the consumer did not reach the end: {:?}", items.last()));
     }
+    if oracle.is_none() {
+        oracle = hint_verdict("the response", hs, delivered);
+    }
     out.hist("eos.response.mode", mode);
+    out.hist("eos.response.inner_exact_hint", hint);
     out.hist("eos.response.stopped_by_is_end_stream", by_eos);
     out.hist("eos.response.size_hint_upper_below_delivered", matches!(hs.1, Some(u) if (u as usize) < delivered));
     pend.push(Pending {
@@ -527,6 +710,105 @@ fn hyper_case_revs(kind: &str, accept: Option<&str>, revs: &[E], mode: u8, hint:
             nontrivial: true,
         },
         py: if judged { Some(json!({"text": text, "chunks": chunks, "msgs": hex(msgs), "trailers": pairs_json(listed)})) } else { None },
+    });
+}
+
+/// kind *.hyper_h1: the translated response as a REAL hyper HTTP/1.1 server connection writes it
+/// (tokio duplex pipe, raw bytes read on the client side).  hyper derives a Content-Length from an
+/// exact size_hint() and from a content-length response header and cuts the body there
+/// (F-C16a, F-C16b).  Observable: the content-length values of the response head and the
+/// transfer-decoded body; judged by the python decoder on those bytes.
+fn wire_case(kind: &str, accept: Option<&str>, rheaders: &Pairs, revs: &[E], hint: bool, msgs: &[u8], listed: &Pairs,
+             pend: &mut Vec<Pending>, out: &mut Out) {
+    use tokio::io::{AsyncReadExt, AsyncWriteExt};
+    let rt = tokio::runtime::Builder::new_current_thread().enable_all().build().unwrap();
+    let raw: Vec<u8> = rt.block_on(async {
+        let (mut cli, srv) = tokio::io::duplex(1 << 20);
+        let seen = Arc::new(Mutex::new(None));
+        let rec = Rec { resp: Some((200, pairs_to_map(rheaders), revs.to_vec(), 1, hint)), seen, reader: Reader::Drain };
+        let svc = Arc::new(Mutex::new(GrpcWebLayer::new().layer(rec)));
+        let hsvc = hyper::service::service_fn(move |req: Request<hyper::body::Incoming>| svc.lock().unwrap().call(req));
+        let server = hyper::server::conn::http1::Builder::new().serve_connection(hyper_util::rt::TokioIo::new(srv), hsvc);
+        let mut req = String::from("POST /pkg.Svc/Method HTTP/1.1\r\nhost: example.test\r\ncontent-type: application/grpc-web\r\n");
+        if let Some(a) = accept {
+            req.push_str(&format!("accept: {}\r\n", a));
+        }
+        req.push_str("content-length: 0\r\nconnection: close\r\n\r\n");
+        let client = async move {
+            cli.write_all(req.as_bytes()).await.unwrap();
+            let mut buf = vec![];
+            let _ = cli.read_to_end(&mut buf).await;
+            buf
+        };
+        let (_, buf) = tokio::join!(server, client);
+        buf
+    });
+    let split = raw.windows(4).position(|w| w == b"\r\n\r\n");
+    let (head, rest) = match split {
+        Some(p) => (String::from_utf8_lossy(&raw[..p]).to_string(), raw[p + 4..].to_vec()),
+        None => (String::from_utf8_lossy(&raw).to_string(), vec![]),
+    };
+    let mut cls: Vec<Vec<u8>> = vec![];
+    let mut chunked = false;
+    for l in head.lines().skip(1) {
+        if let Some((k, v)) = l.split_once(':') {
+            let k = k.trim().to_ascii_lowercase();
+            if k == "content-length" {
+                cls.push(v.trim().as_bytes().to_vec());
+            }
+            if k == "transfer-encoding" && v.to_ascii_lowercase().contains("chunked") {
+                chunked = true;
+            }
+        }
+    }
+    let mut oracle = None;
+    let body = if chunked {
+        // own transfer-decoding: size line in hex, CRLF, data, CRLF, ... 0 CRLF CRLF
+        let mut o = vec![];
+        let mut at = 0;
+        loop {
+            let Some(e) = rest[at..].windows(2).position(|w| w == b"\r\n") else {
+                oracle = Some("chunked body cut inside a size line".to_string());
+                break;
+            };
+            let line = String::from_utf8_lossy(&rest[at..at + e]).to_string();
+            let Ok(n) = usize::from_str_radix(line.split(';').next().unwrap_or("").trim(), 16) else {
+                oracle = Some(format!("bad chunk size line {:?}", line));
+                break;
+            };
+            at += e + 2;
+            if n == 0 {
+                break;
+            }
+            if at + n + 2 > rest.len() {
+                oracle = Some("chunked body cut inside a chunk".to_string());
+                break;
+            }
+            o.extend_from_slice(&rest[at..at + n]);
+            at += n + 2;
+        }
+        o
+    } else {
+        rest
+    };
+    if !head.starts_with("HTTP/1.1 200") {
+        oracle = Some(format!("status line {:?}", head.lines().next()));
+    }
+    let text = is_text(accept.map(|a| a.as_bytes()));
+    // python checks every chunk on its own: hand it the text body quantum by quantum
+    let chunks: Vec<String> = if text { body.chunks(4).map(hex).collect() } else { vec![hex(&body)] };
+    out.hist("wire.transfer", if chunked { "chunked" } else if cls.is_empty() { "until close" } else { "content-length" });
+    pend.push(Pending {
+        case: Case {
+            kind: kind.to_string(),
+            input: json!({"wire": {"accept": accept, "rheaders": pairs_json(rheaders), "revs": evs_json(revs), "hint": hint,
+                                   "msgs": hex(msgs), "trailers": pairs_json(listed)}}),
+            model: format!("obs_wire {} {} {}", coq_hm(&pairs_to_map(rheaders)), if text { "Base64" } else { "NoEnc" }, evs_coq(revs)),
+            impl_obs: Tr::L(vec![Tr::L(cls.iter().map(|v| Tr::b(v)).collect()), Tr::b(&body)]),
+            oracle,
+            nontrivial: true,
+        },
+        py: Some(json!({"text": text, "chunks": chunks, "msgs": hex(msgs), "trailers": pairs_json(listed)})),
     });
 }
 
@@ -585,6 +867,91 @@ fn b64(p: &[u8]) -> Vec<u8> {
     o
 }
 
+/// strict decoder of ONE padded base64 text (own table, shares nothing with tonic / the model)
+fn unb64(t: &[u8]) -> Option<Vec<u8>> {
+    if t.len() % 4 != 0 {
+        return None;
+    }
+    let val = |c: u8| -> Option<u32> {
+        match c {
+            b'A'..=b'Z' => Some((c - b'A') as u32),
+            b'a'..=b'z' => Some((c - b'a') as u32 + 26),
+            b'0'..=b'9' => Some((c - b'0') as u32 + 52),
+            b'+' => Some(62),
+            b'/' => Some(63),
+            _ => None,
+        }
+    };
+    let mut o = vec![];
+    let nq = t.len() / 4;
+    for (qi, q) in t.chunks(4).enumerate() {
+        let pads = q.iter().rev().take_while(|c| **c == b'=').count();
+        if pads > 2 || (pads > 0 && qi + 1 != nq) {
+            return None;
+        }
+        let mut n = 0u32;
+        for c in &q[..4 - pads] {
+            n = n << 6 | val(*c)?;
+        }
+        n <<= 6 * pads as u32;
+        match pads {
+            0 => o.extend([(n >> 16) as u8, (n >> 8) as u8, n as u8]),
+            1 => {
+                if n & 0xff != 0 {
+                    return None;
+                }
+                o.extend([(n >> 16) as u8, (n >> 8) as u8])
+            }
+            _ => {
+                if n & 0xffff != 0 {
+                    return None;
+                }
+                o.push((n >> 16) as u8)
+            }
+        }
+    }
+    Some(o)
+}
+/// a text body read quantum by quantum (padding may end any quantum): the bytes of the longest
+/// decodable prefix and the number of characters it covers
+fn quanta_prefix(t: &[u8]) -> (Vec<u8>, usize) {
+    let mut o = vec![];
+    let mut used = 0;
+    for q in t.chunks(4) {
+        match unb64(q) {
+            Some(b) if q.len() == 4 => {
+                o.extend(b);
+                used += 4;
+            }
+            _ => break,
+        }
+    }
+    (o, used)
+}
+/// "reaches the inner service as the original gRPC bytes" for ANY text body: what arrives is a
+/// prefix of the independent per-quantum reading, and a clean end needs every character decoded
+fn text_request_verdict(wire: &[u8], items: &[Item]) -> Option<String> {
+    let (dec, used) = quanta_prefix(wire);
+    let got = data_of(items);
+    if !dec.starts_with(&got) {
+        return Some(format!(
+            "the inner service received {} which is not a prefix of the per-quantum decoding {} of the text sent",
+            hex(&got),
+            hex(&dec)
+        ));
+    }
+    if items.last() == Some(&Item::None) && (used != wire.len() || got != dec) {
+        return Some(format!(
+            "the request body ended cleanly after {} bytes although the text sent decodes to {} bytes ({} of {} characters decodable)",
+            got.len(),
+            dec.len(),
+            used,
+            wire.len()
+        ));
+    }
+    None
+}
+
 /// What the caller promises about the case, for the direct oracle.
 #[derive(Clone, Default)]
 struct Promise {
@@ -592,6 +959,15 @@ struct Promise {
     req_payload: Option<Vec<u8>>,
     /// the inner response is message frames (these bytes) followed by these trailers
     resp: Option<(Vec<u8>, Pairs)>,
+    /// the request body is a NON-canonical text encoding (unpadded, several padded segments) of
+    /// these bytes: they arrive completely and the body ends, or the body fails having
+    /// delivered a prefix of them - nothing else reaches the inner service
+    req_original: Option<Vec<u8>>,
+    /// the inner response body is these data bytes and NO trailers: the translated body must
+    /// decode to exactly them (no frame invented, nothing lost)
+    resp_plain: Option<Vec<u8>>,
+    /// a Trailers-Only response: status in the response headers, empty body
+    trailers_only: bool,
 }
 struct Pending {
     case: Case,
@@ -620,6 +996,9 @@ fn do_call(kind: &str, c: &Call, p: &Promise, pend: &mut Vec<Pending>, out: &mut
         }
         (Some(s), _) => {
             let ct = first(&c.headers, "content-type");
+            if s.uri != "http://example.test/pkg.Svc/Method" {
+                oracle = Some(format!("the request URI reached the inner service as {}", s.uri));
+            }
             let translated = s.headers.get("content-type").map(|v| v.as_bytes()) == Some(b"application/grpc")
                 && WEB_TYPES.iter().any(|t| Some(t.as_bytes()) == ct);
             match want {
@@ -631,6 +1010,30 @@ fn do_call(kind: &str, c: &Call, p: &Promise, pend: &mut Vec<Pending>, out: &mut
                     if s.method != Method::POST || version_num(s.version) as u64 != c.version {
                         oracle = Some("method / version changed".into());
                     }
+                    // lossless: every request header the translation has no business with
+                    // arrives unchanged (te / accept-encoding are set by the layer: incidental,
+                    // compared with the model only); a content-length that arrives is true
+                    let hin = pairs_to_map(&c.headers);
+                    let own = ["content-type", "content-length", "te", "accept-encoding"];
+                    for k in hin.keys().chain(s.headers.keys()) {
+                        if own.contains(&k.as_str()) {
+                            continue;
+                        }
+                        let a: Vec<&[u8]> = hin.get_all(k).iter().map(|v| v.as_bytes()).collect();
+                        let b: Vec<&[u8]> = s.headers.get_all(k).iter().map(|v| v.as_bytes()).collect();
+                        if a != b {
+                            oracle = Some(format!("request header {} changed on the way to the inner service", k));
+                        }
+                    }
+                    if let Some(cl) = s.headers.get("content-length") {
+                        if cl.to_str().ok().and_then(|x| x.parse::<usize>().ok()) != Some(data_of(&s.body).len()) {
+                            oracle = Some(format!(
+                                "the inner service was told content-length {:?} and received {} bytes",
+                                cl,
+                                data_of(&s.body).len()
+                            ));
+                        }
+                    }
                     if let Some(pl) = &p.req_payload {
                         if &data_of(&s.body) != pl || s.body.last() != Some(&Item::None) {
                             oracle = Some(format!(
@@ -641,6 +1044,29 @@ fn do_call(kind: &str, c: &Call, p: &Promise, pend: &mut Vec<Pending>, out: &mut
                             ));
                         }
                     }
+                    if is_text(ct) {
+                        // ANY text body: nothing but the original bytes reaches the inner service
+                        let wire: Vec<u8> = c.qevs.iter().flat_map(|e| to_bytes(e)).collect();
+                        if let Some(why) = text_request_verdict(&wire, &s.body) {
+                            oracle = Some(why);
+                        }
+                    }
+                    if let Some(orig) = &p.req_original {
+                        let got = data_of(&s.body);
+                        if !orig.starts_with(&got) {
+                            oracle = Some(format!("inner service received {} which is not a prefix of the original {}", hex(&got), hex(orig)));
+                        } else if s.body.last() == Some(&Item::None) && &got != orig {
+                            oracle = Some(format!("the request body ended cleanly after {} of the {} original bytes", got.len(), orig.len()));
+                        } else if !matches!(s.body.last(), Some(Item::None) | Some(Item::Err(_))) {
+                            oracle = Some(format!("the request body neither ended nor failed: {:?}", s.body.last()));
+                        }
+                    }
+                    out.hist("call.request_body_hint", if s.hint.1.is_some() { "upper bound" } else { "none" });
+                    if !c.qevs.iter().any(|e| matches!(e, E::X | E::T(_))) {
+                        if let Some(why) = hint_verdict("the request", s.hint, data_of(&s.body).len()) {
+                            oracle = Some(why);
+                        }
+                    }
                     let accept_text = is_text(first(&c.headers, "accept"));
                     let want_ct = if accept_text { WEB_TYPES[3] } else { WEB_TYPES[1] };
                     if d.headers.get("content-type").map(|v| v.as_bytes()) != Some(want_ct.as_bytes()) {
@@ -649,6 +1075,24 @@ fn do_call(kind: &str, c: &Call, p: &Promise, pend: &mut Vec<Pending>, out: &mut
                     if d.status != c.rstatus {
                         oracle = Some("response status changed".into());
                     }
+                    // F-C16b: the inner service described the untranslated body
+                    if let Some(cl) = d.headers.get("content-length") {
+                        oracle = Some(format!(
+                            "the translated response carries content-length {:?} (the length of the untranslated body): an HTTP/1.1 server cuts the body there",
+                            cl
+                        ));
+                    }
+                    let hres = pairs_to_map(&c.rheaders);
+                    for k in hres.keys().chain(d.headers.keys()) {
+                        if k == "content-type" || k == "content-length" {
+                            continue;
+                        }
+                        let a: Vec<&[u8]> = hres.get_all(k).iter().map(|v| v.as_bytes()).collect();
+                        let b: Vec<&[u8]> = d.headers.get_all(k).iter().map(|v| v.as_bytes()).collect();
+                        if a != b {
+                            oracle = Some(format!("response header {} changed on the way to the caller", k));
+                        }
+                    }
                     if let Some((msgs, trailers)) = &p.resp {
                         if d.body.last() != Some(&Item::None) || d.body.iter().any(|i| matches!(i, Item::Trailers(_))) {
                             oracle = Some(format!("response body did not end cleanly / has HTTP trailers: {:?}", d.body.last()));
@@ -656,6 +1100,31 @@ fn do_call(kind: &str, c: &Call, p: &Promise, pend: &mut Vec<Pending>, out: &mut
                         let chunks: Vec<String> =
                             d.body.iter().filter_map(|i| if let Item::Data(x) = i { Some(hex(x)) } else { None }).collect();
                         py = Some(json!({"text": accept_text, "chunks": chunks, "msgs": hex(msgs), "trailers": pairs_json(trailers)}));
+                    }
+                    if let Some(plain) = &p.resp_plain {
+                        // no trailers from the inner service: exactly its data bytes, item by item
+                        let mut got = vec![];
+                        for i in &d.body {
+                            if let Item::Data(x) = i {
+                                if accept_text {
+                                    match unb64(x) {
+                                        Some(b) => got.extend(b),
+                                        None => oracle = Some(format!("an emitted text chunk is not padded base64: {}", hex(x))),
+                                    }
+                                } else {
+                                    got.extend(x);
+                                }
+                            }
+                        }
+                        if &got != plain {
+                            oracle = Some(format!("the translated body decodes to {} bytes, the inner service sent {}", got.len(), plain.len()));
+                        }
+                        if d.body.last() != Some(&Item::None) || d.body.iter().any(|i| matches!(i, Item::Trailers(_))) {
+                            oracle = Some(format!("response body did not end cleanly / has HTTP trailers: {:?}", d.body.last()));
+                        }
+                    }
+                    if p.trailers_only && (d.body != vec![Item::None]) {
+                        oracle = Some(format!("a Trailers-Only response (status in the headers, empty body) got a body: {:?}", d.body));
                     }
                 }
                 Kind::Pass => {
@@ -733,7 +1202,10 @@ fn do_call(kind: &str, c: &Call, p: &Promise, pend: &mut Vec<Pending>, out: &mut
         case: Case {
             kind: kind.to_string(),
             input: json!({"call": c.json(), "req_payload": p.req_payload.as_ref().map(|x| hex(x)),
-                          "resp": p.resp.as_ref().map(|(m, t)| json!({"msgs": hex(m), "trailers": pairs_json(t)}))}),
+                          "resp": p.resp.as_ref().map(|(m, t)| json!({"msgs": hex(m), "trailers": pairs_json(t)})),
+                          "req_original": p.req_original.as_ref().map(|x| hex(x)),
+                          "resp_plain": p.resp_plain.as_ref().map(|x| hex(x)),
+                          "trailers_only": p.trailers_only}),
             model: c.model(),
             impl_obs: obs,
             oracle,
@@ -898,6 +1370,10 @@ fn resp_headers(r: &mut Rng) -> Pairs {
         h.push((s("x-resp"), b"a".to_vec()));
         h.push((s("x-resp"), b"b".to_vec()));
     }
+    if r.chance(1, 5) {
+        // the length of the UNTRANSLATED body, as an upstream gRPC server may announce it
+        h.push((s("content-length"), r.pick(&[&b"0"[..], b"5", b"6", b"17", b"1000"]).to_vec()));
+    }
     h
 }
 const ACCEPTS: [Option<&str>; 7] = [
@@ -933,7 +1409,7 @@ fn response_case(kind: &str, r: &mut Rng, msgs: &[u8], trailers: &Pairs, cuts: &
     };
     let m = pairs_to_map(trailers);
     let listed: Pairs = m.iter().map(|(k, v)| (k.as_str().to_string(), v.as_bytes().to_vec())).collect();
-    do_call(kind, &c, &Promise { req_payload: Some(vec![]), resp: Some((msgs.to_vec(), listed)) }, pend, out);
+    do_call(kind, &c, &Promise { req_payload: Some(vec![]), resp: Some((msgs.to_vec(), listed)), ..Default::default() }, pend, out);
 }
 /// a request body through the layer, minimal response
 fn request_case(kind: &str, r: &mut Rng, payload: &[u8], text: bool, cuts: &[usize], pending: bool,
@@ -957,7 +1433,7 @@ fn request_case(kind: &str, r: &mut Rng, payload: &[u8], text: bool, cuts: &[usi
     do_call(
         kind,
         &c,
-        &Promise { req_payload: Some(payload.to_vec()), resp: Some((vec![], vec![(s("grpc-status"), b"0".to_vec())])) },
+        &Promise { req_payload: Some(payload.to_vec()), resp: Some((vec![], vec![(s("grpc-status"), b"0".to_vec())])), ..Default::default() },
         pend,
         out,
     );
@@ -1100,7 +1576,7 @@ fn sized_response(kind: &str, n: usize, layout: usize, trailers: &Pairs, accept:
             h.push((s("accept"), a.as_bytes().to_vec()));
         }
         let c = Call { method: s("POST"), version: 2, headers: h, qevs: vec![], rstatus: 200, rheaders: vec![], revs };
-        do_call(kind, &c, &Promise { req_payload: Some(vec![]), resp: Some((msgs, listed)) }, pend, out);
+        do_call(kind, &c, &Promise { req_payload: Some(vec![]), resp: Some((msgs, listed)), ..Default::default() }, pend, out);
     }
 }
 fn mined_sizes(r: &mut Rng, thorough: bool, pend: &mut Vec<Pending>, out: &mut Out) -> Vec<usize> {
@@ -1114,7 +1590,9 @@ fn mined_sizes(r: &mut Rng, thorough: bool, pend: &mut Vec<Pending>, out: &mut O
                 if !(thorough || near || idx % 4 == 0) {
                     continue;
                 }
-                if !thorough && tw == 2 && idx % 3 != 0 {
+                // quick tier: every size of the dense range with one trailers size (rotating),
+                // every fourth size with all three
+                if !thorough && tw != idx % 3 && idx % 4 != 0 {
                     continue;
                 }
                 let tl = sized_trailers(tw, k);
@@ -1144,7 +1622,7 @@ fn mined_sizes(r: &mut Rng, thorough: bool, pend: &mut Vec<Pending>, out: &mut O
     }
     // uniform sweep of sizes up to three times the largest threshold
     let maxk = ks.iter().copied().max().unwrap_or(8192);
-    let n_sweep = if thorough { 400 } else { 120 };
+    let n_sweep = if thorough { 400 } else { 60 };
     for i in 0..n_sweep {
         let n = r.below(3 * maxk as u64 + 1) as usize;
         let tl = sized_trailers(r.below(3) as usize, *r.pick(&ks));
@@ -1212,6 +1690,7 @@ fn kind_table(r: &mut Rng, thorough: bool, pend: &mut Vec<Pending>, out: &mut Ou
                 let p = Promise {
                     req_payload: if binary { Some(body) } else { None },
                     resp: Some((frame(0, b"pong"), vec![(s("grpc-status"), b"0".to_vec())])),
+                    ..Default::default()
                 };
                 do_call("table.kind", &c, &p, pend, out);
             }
@@ -1233,6 +1712,42 @@ fn corpus(r: &mut Rng, pend: &mut Vec<Pending>, out: &mut Out) {
         response_case("corpus.response", r, &[], &t, &[], a, false, pend, out);
         response_case("corpus.response", r, &hi, &vec![], &[], a, false, pend, out);
     }
+    // F-C16a (fix 2dcb76d4): an inner body with an EXACT size hint (http_body_util::Full +
+    // with_trailers): one 6-byte message frame, then trailers; read by the hyper-like consumer
+    // and through a real hyper HTTP/1.1 server connection.
+    // F-C16b (fix 7e0a074f): the inner response carries `content-length: 6`.
+    let f16 = frame(0, b"A");
+    let t16: Pairs = vec![(s("grpc-status"), b"0".to_vec())];
+    let revs16 = vec![E::D(f16.clone()), E::T(t16.clone())];
+    let cl16: Pairs = vec![(s("content-type"), b"application/grpc".to_vec()), (s("content-length"), b"6".to_vec())];
+    for acc in [None, Some(WEB_TYPES[0]), Some(WEB_TYPES[2]), Some(WEB_TYPES[3])] {
+        for mode in [0u8, 1] {
+            hyper_case_revs("corpus.F-C16a.size_hint", acc, &revs16, mode, true, &f16, &t16, pend, out);
+        }
+        wire_case("corpus.F-C16a.hyper_h1", acc, &vec![], &revs16, true, &f16, &t16, pend, out);
+        wire_case("corpus.F-C16b.hyper_h1", acc, &cl16, &revs16, false, &f16, &t16, pend, out);
+        let mut h = vec![(s("content-type"), WEB_TYPES[0].as_bytes().to_vec())];
+        if let Some(a) = acc {
+            h.push((s("accept"), a.as_bytes().to_vec()));
+        }
+        let c = Call { method: s("POST"), version: 2, headers: h, qevs: vec![], rstatus: 200, rheaders: cl16.clone(), revs: revs16.clone() };
+        do_call("corpus.F-C16b.content_length", &c, &Promise { req_payload: Some(vec![]), resp: Some((f16.clone(), t16.clone())), ..Default::default() }, pend, out);
+    }
+    // three messages in several chunks with Pending, repeated trailer names, through hyper http1
+    {
+        let m3: Vec<u8> = [frame(0, b"hello"), frame(1, &[0x80, 0, 255]), frame(0, b"")].concat();
+        let t3: Pairs = vec![(s("grpc-status"), b"5".to_vec()), (s("grpc-message"), b"a:b c".to_vec()), (s("x-k"), b"1".to_vec()), (s("x-k"), b"2".to_vec())];
+        let mut revs = vec![E::D(m3[..3].to_vec()), E::P, E::D(m3[3..11].to_vec()), E::D(m3[11..].to_vec()), E::P];
+        revs.push(E::T(t3.clone()));
+        let m = pairs_to_map(&t3);
+        let listed: Pairs = m.iter().map(|(k, v)| (k.as_str().to_string(), v.as_bytes().to_vec())).collect();
+        for acc in [Some(WEB_TYPES[1]), Some(WEB_TYPES[2])] {
+            for hint in [false, true] {
+                wire_case("corpus.hyper_h1", acc, &vec![(s("x-resp"), b"1".to_vec())], &revs, hint, &m3, &listed, pend, out);
+            }
+        }
+    }
+    default_call_case(pend);
     // text requests cut inside a quantum
     for cut in 0..=8usize {
         let cuts: Vec<usize> = if cut == 0 || cut == 8 { vec![] } else { vec![cut] };
@@ -1273,7 +1788,8 @@ fn observe(r: &mut Rng, pend: &mut Vec<Pending>, out: &mut Out) {
             let b = b64(b"BC");
             let whole: Vec<u8> = [a.clone(), b.clone()].concat();
             let cuts = random_cuts(r, whole.len());
-            do_call("observe.text_request_two_segments", &base(chunks_at(&whole, &cuts), true, ok, None), &none, pend, out);
+            let orig = Promise { req_original: Some(b"ABC".to_vec()), ..Default::default() };
+            do_call("observe.text_request_two_segments", &base(chunks_at(&whole, &cuts), true, ok, None), &orig, pend, out);
         }
         1 => {
             // invalid characters / bad length
@@ -1311,7 +1827,8 @@ fn observe(r: &mut Rng, pend: &mut Vec<Pending>, out: &mut Out) {
         5 => {
             // response without trailers
             let m = gen_msgs(r);
-            do_call("observe.response_without_trailers", &base(vec![], false, chunks_at(&m, &random_cuts(r, m.len())), *r.pick(&ACCEPTS)), &none, pend, out);
+            let plain = Promise { resp_plain: Some(m.clone()), ..Default::default() };
+            do_call("observe.response_without_trailers", &base(vec![], false, chunks_at(&m, &random_cuts(r, m.len())), *r.pick(&ACCEPTS)), &plain, pend, out);
         }
         6 => {
             // response body error
@@ -1325,6 +1842,27 @@ fn observe(r: &mut Rng, pend: &mut Vec<Pending>, out: &mut Out) {
             let mut e = ok.clone();
             e.push(E::D(frame(0, b"late")));
             do_call("observe.response_data_after_trailers", &base(vec![], false, e, *r.pick(&ACCEPTS)), &none, pend, out);
+        }
+        8 if r.chance(1, 2) => {
+            // a Trailers-Only response: grpc-status in the response HEADERS, empty body (what
+            // tonic answers for `Err(Status)`): status and headers reach the caller, no body
+            let revs = match r.below(3) {
+                0 => vec![],
+                1 => vec![E::P],
+                _ => vec![E::D(vec![])],
+            };
+            let mut c = base(vec![], false, revs.clone(), *r.pick(&ACCEPTS));
+            c.rheaders = vec![
+                (s("content-type"), b"application/grpc".to_vec()),
+                (s("grpc-status"), r.below(17).to_string().into_bytes()),
+                (s("grpc-message"), gen_value(r)),
+            ];
+            if r.chance(1, 3) {
+                c.rheaders.push((s("content-length"), b"0".to_vec()));
+            }
+            // an empty data frame is passed on as an empty data item: judged only when none is sent
+            let p = Promise { trailers_only: !revs.iter().any(|e| matches!(e, E::D(_))), ..Default::default() };
+            do_call("response.trailers_only", &c, &p, pend, out);
         }
         8 => {
             // other status codes / headers survive
@@ -1359,7 +1897,34 @@ fn main() {
             // is not guaranteed, so the events are fed directly)
             let qevs = evs_from_json(&h["qevs"]);
             let payload = h["payload"].as_str().map(unhex);
-            request_hyper_evs(&kind, payload.as_deref(), qevs, h["eos_mode"].as_u64().unwrap_or(1) as u8, &mut pend, &mut out);
+            request_hyper_evs(
+                &kind,
+                payload.as_deref(),
+                qevs,
+                h["eos_mode"].as_u64().unwrap_or(1) as u8,
+                h["text"].as_bool().unwrap_or(true),
+                h["hint"].as_bool().unwrap_or(false),
+                &mut pend,
+                &mut out,
+            );
+        } else if let Some(h) = inp.get("polls_request") {
+            polls_request_case(&kind, evs_from_json(&h["qevs"]), h["text"].as_bool().unwrap_or(true), h["n"].as_u64().unwrap_or(10) as usize, &mut pend, &mut out);
+        } else if let Some(h) = inp.get("polls_response") {
+            polls_response_case(&kind, evs_from_json(&h["revs"]), h["text"].as_bool().unwrap_or(false), h["n"].as_u64().unwrap_or(10) as usize, &mut pend, &mut out);
+        } else if inp.get("default_call").is_some() {
+            default_call_case(&mut pend);
+        } else if let Some(h) = inp.get("wire") {
+            wire_case(
+                &kind,
+                h["accept"].as_str(),
+                &pairs_from_json(&h["rheaders"]),
+                &evs_from_json(&h["revs"]),
+                h["hint"].as_bool().unwrap_or(false),
+                &unhex(h["msgs"].as_str().unwrap_or("")),
+                &pairs_from_json(&h["trailers"]),
+                &mut pend,
+                &mut out,
+            );
         } else if let Some(h) = inp.get("hyper") {
             let revs = evs_from_json(&h["revs"]);
             hyper_case_revs(
@@ -1378,6 +1943,9 @@ fn main() {
         let p = Promise {
             req_payload: inp["req_payload"].as_str().map(unhex),
             resp: inp.get("resp").filter(|x| !x.is_null()).map(|x| (unhex(x["msgs"].as_str().unwrap()), pairs_from_json(&x["trailers"]))),
+            req_original: inp["req_original"].as_str().map(unhex),
+            resp_plain: inp["resp_plain"].as_str().map(unhex),
+            trailers_only: inp["trailers_only"].as_bool().unwrap_or(false),
         };
         do_call(&kind, &c, &p, &mut pend, &mut out);
         }
@@ -1422,8 +1990,10 @@ fn main() {
         let ln = b64(&lp).len();
         for c1 in 1..ln {
             request_case("request.text_single_cut", &mut r, &lp, true, &[c1], false, &mut pend, &mut out);
-            if t {
-                for c2 in c1 + 1..ln {
+            // every pair of cuts (thorough); quick: the second cut 1..3 characters later (both
+            // inside one quantum or in neighbouring quanta) and one far cut
+            for c2 in c1 + 1..ln {
+                if t || c2 <= c1 + 3 || c2 == (c1 + 17).min(ln - 1) {
                     request_case("request.text_double_cut", &mut r, &lp, true, &[c1, c2], false, &mut pend, &mut out);
                 }
             }
@@ -1447,7 +2017,10 @@ fn main() {
             let acc = *r.pick(&[None, Some(WEB_TYPES[0]), Some(WEB_TYPES[2]), Some(WEB_TYPES[3])]);
             match i % 5 {
                 0 => response_hyper_case("observe.eos_response_inner_breaks_contract", &mut r, &m, &tl, &cuts, acc, 2, false, &mut pend, &mut out),
-                1 => response_hyper_case("observe.size_hint_exact_inner", &mut r, &m, &tl, &cuts, acc, 1, true, &mut pend, &mut out),
+                1 => {
+                    let mode = *r.pick(&[0u8, 1, 1]);
+                    response_hyper_case("eos.size_hint_exact_inner", &mut r, &m, &tl, &cuts, acc, mode, true, &mut pend, &mut out)
+                }
                 2 => response_hyper_case("eos.response_never", &mut r, &m, &tl, &cuts, acc, 0, false, &mut pend, &mut out),
                 _ => response_hyper_case("eos.response", &mut r, &m, &tl, &cuts, acc, 1, false, &mut pend, &mut out),
             }
@@ -1456,14 +2029,97 @@ fn main() {
             let p = gen_msgs(&mut r);
             let w = b64(&p);
             let cuts = random_cuts(&mut r, w.len());
-            if r.chance(3, 4) {
-                request_hyper_case("eos.request_text", &mut r, Some(&p), &w, &cuts, 1, &mut pend, &mut out);
+            if r.chance(1, 4) {
+                // a binary request body whose inner body announces its exact length
+                let bc = random_cuts(&mut r, p.len());
+                let qevs = sprinkle(&mut r, chunks_at(&p, &bc));
+                let mode = *r.pick(&[0u8, 1, 1]);
+                let hint = r.chance(2, 3);
+                request_hyper_evs("eos.request_binary", Some(&p), qevs, mode, false, hint, &mut pend, &mut out);
+            } else if r.chance(3, 4) {
+                if r.chance(1, 3) {
+                    let qevs = sprinkle(&mut r, chunks_at(&w, &cuts));
+                    request_hyper_evs("eos.request_text", Some(&p), qevs, 1, true, true, &mut pend, &mut out);
+                } else {
+                    request_hyper_case("eos.request_text", &mut r, Some(&p), &w, &cuts, 1, &mut pend, &mut out);
+                }
             } else {
                 // leftover characters at EOF: is_end_stream must stay false until the error is out
                 let mut w2 = w.clone();
                 w2.extend(&b"QUJ"[..r.range(1, 3) as usize]);
                 request_hyper_case("observe.eos_request_text_leftover", &mut r, None, &w2, &cuts, 1, &mut pend, &mut out);
             }
+        }
+        // ---- every poll result, errors are not final (post-error state of the bodies) ---------------
+        let n_polls = if t { 1500 } else { 150 };
+        for _ in 0..n_polls {
+            let p = gen_msgs(&mut r);
+            match r.below(5) {
+                0 | 1 => {
+                    // text request: valid, or damaged in one of the ways of observe.*; errors / HTTP trailers anywhere
+                    let mut w = b64(&p);
+                    match r.below(6) {
+                        0 => w.extend(&b"QUJ"[..r.range(1, 3) as usize]),
+                        1 => {
+                            if !w.is_empty() {
+                                let i = r.below(w.len() as u64) as usize;
+                                w[i] = *r.pick(b"!*-_ =");
+                            }
+                        }
+                        2 => w = [b64(b"A"), w, b64(b"BC")].concat(),
+                        _ => {}
+                    }
+                    let cuts = random_cuts(&mut r, w.len());
+                    let mut q = sprinkle(&mut r, chunks_at(&w, &cuts));
+                    if r.chance(1, 3) {
+                        let at = r.below(q.len() as u64 + 1) as usize;
+                        q.insert(at, if r.chance(1, 2) { E::X } else { E::T(vec![(s("x-t"), b"1".to_vec())]) });
+                    }
+                    let n = (q.len() + w.len() / 4 + 3).min(90);
+                    polls_request_case("polls.request_text", q, true, n, &mut pend, &mut out);
+                }
+                2 => {
+                    let cuts = random_cuts(&mut r, p.len());
+                    let mut q = sprinkle(&mut r, chunks_at(&p, &cuts));
+                    if r.chance(1, 2) {
+                        let at = r.below(q.len() as u64 + 1) as usize;
+                        q.insert(at, if r.chance(1, 2) { E::X } else { E::T(vec![(s("x-t"), b"1".to_vec())]) });
+                    }
+                    let n = q.len() + 2;
+                    polls_request_case("polls.request_binary", q, false, n, &mut pend, &mut out);
+                }
+                _ => {
+                    let cuts = random_cuts(&mut r, p.len());
+                    let mut e = sprinkle(&mut r, chunks_at(&p, &cuts));
+                    if r.chance(1, 2) {
+                        let at = r.below(e.len() as u64 + 1) as usize;
+                        e.insert(at, E::X);
+                    }
+                    if r.chance(2, 3) {
+                        e.push(E::T(gen_trailers(&mut r)));
+                    }
+                    if r.chance(1, 4) {
+                        e.push(E::D(frame(0, b"late")));
+                    }
+                    let n = e.len() + 2;
+                    polls_response_case("polls.response", e, r.chance(1, 2), n, &mut pend, &mut out);
+                }
+            }
+        }
+        // ---- random gRPC responses through a real hyper HTTP/1.1 server connection -------------------
+        let n_wire = if t { 300 } else { 40 };
+        for _ in 0..n_wire {
+            let m = gen_msgs(&mut r);
+            let tl = gen_trailers(&mut r);
+            let cuts = random_cuts(&mut r, m.len());
+            let mut revs = sprinkle(&mut r, chunks_at(&m, &cuts));
+            revs.push(E::T(tl.clone()));
+            let mp = pairs_to_map(&tl);
+            let listed: Pairs = mp.iter().map(|(k, v)| (k.as_str().to_string(), v.as_bytes().to_vec())).collect();
+            let acc = *r.pick(&[None, Some(WEB_TYPES[1]), Some(WEB_TYPES[2]), Some(WEB_TYPES[3])]);
+            let rh = resp_headers(&mut r);
+            let hint = r.chance(1, 2);
+            wire_case("response.hyper_h1", acc, &rh, &revs, hint, &m, &listed, &mut pend, &mut out);
         }
         // ---- sizes around every numeric threshold of the source ------------------------------------
         let ks = mined_sizes(&mut r, t, &mut pend, &mut out);
@@ -1513,7 +2169,7 @@ fn main() {
                 rheaders: vec![],
                 revs: vec![E::T(t0.clone())],
             };
-            do_call("observe.text_request_unpadded", &c, &Promise::default(), &mut pend, &mut out);
+            do_call("observe.text_request_unpadded", &c, &Promise { req_original: Some(p.clone()), ..Default::default() }, &mut pend, &mut out);
         }
     }
 
@@ -1568,7 +2224,7 @@ fn main() {
     }
     out.finish(
         IMPORTS,
-        "calls through the real GrpcWebLayer over a recording inner service: corpus; the (method x version x content-type) table (11 methods x 5 versions x 16 content-type settings); responses = 0-4 message frames cut at arbitrary positions of the inner body (every cut set for small streams), Pending anywhere, trailers with repeated names / ':' / spaces, Accept in {absent, 4 grpc-web types, others}; requests = binary and base64 text bodies cut at arbitrary positions (every cut set for small payloads, every single / double cut of a longer one), Pending anywhere; observe.* = inputs the property text does not decide (malformed text, multi-segment text, body errors, missing trailers). Oracle: oracle/grpcweb.py decodes every translated response body (python base64 + struct), request bytes / content-type / status table computed in the harness. Non-trivial = a body is present or the case is not a translation; distinct = distinct (kind, model expression).",
+        "calls through the real GrpcWebLayer over a recording inner service: corpus (incl. the witnesses of F-C16a / F-C16b, also through a real hyper HTTP/1.1 server connection); the (method x version x content-type) table (11 methods x 5 versions x 16 content-type settings; quick tier: POST and GET rows complete, a random third of the other methods); responses = 0-4 message frames cut at arbitrary positions of the inner body (every cut set for small streams), Pending anywhere, trailers with repeated names / ':' / spaces, Accept in {absent, 4 grpc-web types, others}, inner response headers with and without a content-length; requests = binary and base64 text bodies cut at arbitrary positions (every cut set for small payloads, every single cut and - thorough: every, quick: near - double cuts of a longer one), Pending anywhere; eos.* = bodies read the way hyper reads them (is_end_stream, size_hint; inner bodies with and without an exact hint); polls.* = every poll result, errors not final (tie only); *.hyper_h1 = raw bytes of a hyper http1 connection; observe.* = inputs the property text does not decide (malformed / unpadded / multi-segment text, body errors, missing trailers): tie, plus the clauses 'nothing but a prefix of the original bytes arrives, a clean end only with all of them' and 'decodes to exactly the inner data bytes'. Oracle: oracle/grpcweb.py decodes every translated gRPC response body (python base64 + struct); request bytes / headers / content-type / content-length / size_hint / status table computed in the harness without tonic. Non-trivial = a body is present or the case is not a translation; distinct = distinct (kind, model expression).",
         json!({"python_oracle_ran": oracle_ran, "response_bodies_decoded_by_python": decoded, "mined_size_thresholds": mined}),
     );
 }
